@@ -1173,14 +1173,22 @@ def check_C11(tier, seed):
 # ----------------------------------------------------------------------------------------------
 # C14 / C15: polytopes with faces, decompositions fed to custom integrals (VFaces, VDecomp)
 # ----------------------------------------------------------------------------------------------
-def faces_model(out, tier):
+def faces_model(out, tier, seed=0):
     fams = [("R3s", FAMILIES["R3s"])] if tier == "quick" else [("R3a", FAMILIES["R3a"]), ("P3b", FAMILIES["P3b"]), ("R3x", FAMILIES["R3x"])]
+    # + seeded larger lattice inputs, among them fcc / bcc sub-lattices (cells with vertices where four or more faces meet)
+    inputs = sim_inputs(seed, 9 if tier == "quick" else 72, tier, dims=(3,))
+    inf = os.path.join(OUT, "%s_faces_siminputs.ndjson" % out.prop)
+    ensure_dirs()
+    with open(inf, "w") as f:
+        for i in inputs:
+            f.write(json.dumps(i) + "\n")
+    fams = fams + [("sim", fam((1, 1, 1), 3, False, 1, 1, order="fixed", fix=False, view=False))]
     for name, spec in fams:
         cfg = os.path.join(OUT, "tlc", "vfaces_%s.cfg" % name)
         consts = dict(Inputs=("<-", "MCInputs"), Ties="keep", Order="fixed", LGx=spec["G"][0], LGy=spec["G"][1], LGz=spec["G"][2],
-                      LDim=spec["dim"], LPer=spec["per"], LNmin=spec["nmin"], LNmax=spec["nmax"], LFix=spec["fix"], UseFile=False, Emit=False)
+                      LDim=spec["dim"], LPer=spec["per"], LNmin=spec["nmin"], LNmax=spec["nmax"], LFix=spec["fix"], UseFile=(name == "sim"), Emit=False)
         write_cfg(cfg, constants=consts, invariants=["TypeOK", "Closed", "Euler", "Oriented", "FacesOK", "CcwInward", "OrderIndependent", "DecompOK"])
-        r = run_tlc("mc/MCVFaces.tla", cfg, env_extra={"VV_INPUTS": "/dev/null"}, timeout=3000)
+        r = run_tlc("mc/MCVFaces.tla", cfg, env_extra={"VV_INPUTS": inf if name == "sim" else "/dev/null"}, timeout=3000)
         if r.violation:
             raise ToolError("VFaces model violates its own invariant (%s): %s\n%s" % (name, r.violation, r.raw_tail[-2000:]))
         out.coverage["states"] = out.coverage.get("states", 0) + r.distinct
@@ -1232,7 +1240,7 @@ def apply_poly(out, res, verdicts, trace_file, prop):
 
 def check_C15(tier, seed):
     out = Outcome("C15", tier, seed)
-    faces_model(out, tier)
+    faces_model(out, tier, seed)
     res, verdicts, tf = poly_pipeline(tier, seed, "C15")
     apply_poly(out, res, verdicts, tf, "C15")
     out.coverage["rule"] = ("every constructed 3D cell of seeded float inputs (uniform, clustered, near-lattice, exact lattice, shells with ~90 faces, "
@@ -1247,7 +1255,7 @@ def check_C15(tier, seed):
 
 def check_C14(tier, seed):
     out = Outcome("C14", tier, seed)
-    faces_model(out, tier)
+    faces_model(out, tier, seed)
     res, verdicts, tf = poly_pipeline(tier, seed, "C14")
     apply_poly(out, res, verdicts, tf, "C14")
     out.coverage["rule"] = ("the harness IS a downstream crate implementing CellIntegral / FaceIntegral (ProbeCell: signed volume + 10 monomial moments "
